@@ -46,9 +46,12 @@ def fold(ck, fn, start, leaf, what, stop=(), pure=lambda ev: False):
     bid = start
     for _ in range(400):
         b = fn.blocks[bid]
+        via = {e.get("x_via_local") for e in b["ev"] if e.get("e") == "ret"}       # `T v = e; return v;` is presented as `return e;` (facts.py)
         for ev in b["ev"]:
             if ev.get("e") == "ret":
                 return "ret", ev.get("x")
+            if ev.get("e") == "decl" and ev.get("d") in via:
+                continue
             ck.need(pure(ev), "%s: unrecognised side effect '%s' on a decision path" % (what, E.key(ev.get("x") or ev.get("lhs") or {"k": ev.get("e")})))
         succ = b["succ"]
         if bid == fn.exit or not succ:
